@@ -263,6 +263,12 @@ func (r *renderer) emitterOpts(em string) []string {
 		return []string{r.cffN + ".WithEmitter(" + r.tr(e(0)) + ")", r.cffN + ".WithEmitter(" + r.tr(e(1)) + ")"}
 	case "stack":
 		return []string{r.cffN + ".WithEmitter(" + r.tr(fmt.Sprintf("%s.EmitterStack(%s.EmitterStack(%s, %s), %s)", r.cffN, r.cffN, e(0), e(1), e(2))) + ")"}
+	case "nopstack":
+		// a stack with a live emitter and the no-op emitter
+		return []string{r.cffN + ".WithEmitter(" + r.tr(fmt.Sprintf("%s.EmitterStack(%s, %s.NopEmitter())", r.cffN, e(0), r.cffN)) + ")"}
+	case "nop2":
+		// the no-op emitter and a live emitter given separately
+		return []string{r.cffN + ".WithEmitter(" + r.tr(r.cffN+".NopEmitter()") + ")", r.cffN + ".WithEmitter(" + r.tr(e(0)) + ")"}
 	case "shared3":
 		// two stacks derived from one shared base stack (a base of three has spare capacity)
 		fmt.Fprintf(&r.identDcl, "\tembase := %s.EmitterStack(%s, %s, %s)\n\temA := %s.EmitterStack(embase, %s)\n\temB := %s.EmitterStack(embase, %s)\n", r.cffN, e(0), e(1), e(2), r.cffN, e(3), r.cffN, e(4))
@@ -274,7 +280,7 @@ func (r *renderer) emitterOpts(em string) []string {
 // EmitterCount is how many emitters the driver must supply.
 func EmitterCount(em string) int {
 	switch em {
-	case "1":
+	case "1", "nopstack", "nop2":
 		return 1
 	case "2", "prestack":
 		return 2
